@@ -329,6 +329,14 @@ func c07Script(r *gen.Rng, o *out.W) {
 		case 6:
 			w.Drop(c)
 			c = w.Reconnect(c, false)
+			// a PUBLISH the broker never saw (lost on the broken connection) is retransmitted flagged DUP like the others
+			for pid, s2 := range slots {
+				if !s2.open && r.Intn(3) == 0 {
+					w.seq++
+					s2.tag, s2.qos, s2.open, s2.rel = fmt.Sprintf("m%d", w.seq), packet.QOS(1+r.Intn(2)), true, false
+					w.Send(c, &packet.Publish{ID: pid, Dup: true, Message: packet.Message{Topic: "t/" + s2.tag, QOS: s2.qos, Payload: []byte(s2.tag)}})
+				}
+			}
 			// after a reconnect the publisher retransmits what is unfinished
 			for pid, s2 := range slots {
 				if s2.open && r.Intn(4) != 0 {
